@@ -1182,3 +1182,208 @@ Definition run_C01_with
                   VL (map (hist_spec_item (spec_parse_m orc) (spec_match_m orc) ds_spec) steps)])
     | _ => None
     end).
+
+(* ================================================================== seventh round (additive)
+   Route predicates that are functions of the REQUEST (pyramid/predicates.py): request_param=,
+   xhr=, plain or wrapped in not_(), and the traverse= pseudo-predicate.  A request-only predicate
+   is resolved against the request it is evaluated on to its outcome ([PConst]); the mapper is the
+   same for every request (its structure does not depend on the predicates), so a dispatch on
+   request e is the dispatch of the declarations resolved on e. *)
+Record renv := mkRenv { e_params : list (text * text); e_xhr : bool }.
+
+(* request.params.get(k) (WebOb MultiDict / NestedMultiDict over a query string): the LAST value *)
+Definition params_get (ps : list (text * text)) (k : text) : option text :=
+  fold_left (fun acc kv => if text_eqb k (fst kv) then Some (snd kv) else acc) ps None.
+
+(* str.strip(): the characters Python calls whitespace (fact [py_space_chars]) *)
+Definition py_space (c : N) : bool := memN c py_space_chars.
+Fixpoint lstrip_by (f : N -> bool) (s : text) : text :=
+  match s with [] => [] | c :: r => if f c then lstrip_by f r else s end.
+Definition strip_ws (s : text) : text := rev (lstrip_by py_space (rev (lstrip_by py_space s))).
+(* s.split(c, 1) when c occurs *)
+Fixpoint split_first (c : N) (s : text) : option (text * text) :=
+  match s with
+  | [] => None
+  | x :: r => if (x =? c)%N then Some ([], r)
+              else match split_first c r with Some (a, b) => Some (x :: a, b) | None => None end
+  end.
+(* RequestParamPredicate.__init__, one value: 'k' -> (k, None); 'k=v' -> (strip k, Some (strip v));
+   a leading '=' belongs to the key ('=k=v' -> ('=k', v)); '=k' alone is a bare key *)
+Definition c_eq : N := 61.
+Definition param_parse (p : text) : text * option text :=
+  match p with
+  | c :: r =>
+      if (c =? c_eq)%N
+      then match split_first c_eq r with
+           | Some (a, b) => (strip_ws (c_eq :: a), Some (strip_ws b))
+           | None => (p, None)
+           end
+      else match split_first c_eq p with
+           | Some (a, b) => (strip_ws a, Some (strip_ws b))
+           | None => (p, None)
+           end
+  | [] => (p, None)
+  end.
+Definition param_init_model (vals : list text) : list (text * option text) := map param_parse vals.
+(* RequestParamPredicate.__call__ (reference): every required key is present, and where a value is
+   required (also the EMPTY value) the parameter's value equals it *)
+Definition param_req_ok (ps : list (text * text)) (kv : text * option text) : bool :=
+  match params_get ps (fst kv) with
+  | None => false
+  | Some a => match snd kv with None => true | Some v => text_eqb a v end
+  end.
+Definition param_call_model (reqs : list (text * option text)) (ps : list (text * text)) : bool :=
+  forallb (param_req_ok ps) reqs.
+
+(* a == b between two values that are a str or None *)
+Definition otext_eqb (a b : option text) : bool :=
+  match a, b with Some x, Some y => text_eqb x y | None, None => true | _, _ => false end.
+
+Inductive xpred :=
+  | XBase (p : pred)
+  | XParam (neg : bool) (vals : list text)
+  | XXhr (neg : bool) (b : bool)
+  | XTraverse (tp : text).
+(* declarative meaning *)
+Definition xpred_holds (e : renv) (method : text) (d : matchdict) (x : xpred) : bool :=
+  match x with
+  | XBase p => pred_ok method d p
+  | XParam n vs => xorb n (forallb (param_req_ok (e_params e)) (map param_parse vs))
+  | XXhr n b => xorb n (Bool.eqb (e_xhr e) b)
+  | XTraverse _ => true
+  end.
+Definition xresolve (pc : list (text * option text) -> list (text * text) -> bool) (e : renv) (x : xpred) : pred :=
+  match x with
+  | XBase p => p
+  | XParam n vs => PConst (xorb n (pc (param_init_model vs) (e_params e)))
+  | XXhr n b => PConst (xorb n (Bool.eqb (e_xhr e) b))
+  | XTraverse _ => PConst true
+  end.
+Record xdecl := mkXDecl { x_name : text; x_src : text; x_static : bool; x_preds : list xpred;
+                          x_levels : list text; x_inherit : bool }.
+Definition xdecl_resolve (pc : list (text * option text) -> list (text * text) -> bool) (e : renv) (x : xdecl)
+  : decl * list text * bool :=
+  (mkDecl (x_name x) (x_src x) (x_static x) (map (xresolve pc e) (x_preds x)), x_levels x, x_inherit x).
+Definition is_traverse (p : xpred) : bool := match p with XTraverse _ => true | _ => false end.
+Definition has_traverse_at (xs : list xdecl) (i : nat) : bool :=
+  match nth_error xs i with Some x => existsb is_traverse (x_preds x) | None => false end.
+(* TraversePredicate.__call__ stores m['traverse'] = <the traversal path generated from the
+   dictionary> in the match dictionary it is handed, unless the dictionary already has that key
+   (the pattern itself captures 'traverse': the traverse= argument is then ignored).
+   The VALUE is URL generation + traversal (C06 / C02): the harness replaces it by the empty tuple. *)
+Definition key_traverse : text := T "traverse".
+Definition traverse_fix (xs : list xdecl) (o : outcome) : outcome :=
+  match o with
+  | OMatch r d => if has_traverse_at xs (r_id r)
+                  then match dict_get d key_traverse with
+                       | Some _ => o
+                       | None => OMatch r (md_put d key_traverse (MSegs []))
+                       end
+                  else o
+  | _ => o
+  end.
+(* the property: the dictionary holds exactly what the placeholders captured; a route declared
+   with traverse= additionally carries the key 'traverse' -- unless a placeholder has that name *)
+Definition spec_traverse_fix (xs : list xdecl) (o : spec_outcome) : spec_outcome :=
+  match o with
+  | SMatch r d => if has_traverse_at xs (r_id r)
+                  then match dict_get d key_traverse with
+                       | Some _ => o
+                       | None => SMatch r (d ++ [(key_traverse, MSegs [])])
+                       end
+                  else o
+  | _ => o
+  end.
+
+Definition get_xpred (v : val) : option xpred :=
+  match v with
+  | VL [VI 3%Z; n; vs] => olet n := get_bool n in olet vs := get_texts vs in Some (XParam n vs)
+  | VL [VI 4%Z; n; b] => olet n := get_bool n in olet b := get_bool b in Some (XXhr n b)
+  | VL [VI 6%Z; VT tp] => Some (XTraverse tp)
+  | _ => olet p := get_pred v in Some (XBase p)
+  end.
+Definition get_xdecl (v : val) : option xdecl :=
+  match v with
+  | VL [VT n; VT s; st; ps; lv; inh] =>
+      olet st := get_bool st in olet ps := get_list_of get_xpred ps in
+      olet lv := get_texts lv in olet inh := get_bool inh in Some (mkXDecl n s st ps lv inh)
+  | _ => None
+  end.
+Definition get_kv (v : val) : option (text * text) :=
+  match v with VL [VT k; VT x] => Some (k, x) | _ => None end.
+Definition get_renv (v : val) : option renv :=
+  match v with
+  | VL [ps; x] => olet ps := get_list_of get_kv ps in olet x := get_bool x in Some (mkRenv ps x)
+  | _ => None
+  end.
+(* a step of a history; a dispatch may come with its own request data *)
+Definition get_xstep (v : val) : option (hstep * option renv) :=
+  match v with
+  | VL [rawv; VT method; e] =>
+      olet raw := get_opt get_text rawv in olet e := get_renv e in Some (HDispatch raw method, Some e)
+  | _ => olet s := get_hstep v in Some (s, None)
+  end.
+
+Definition xbuild (pc : list (text * option text) -> list (text * text) -> bool)
+  (nestf : option text -> option text -> option text) (prefixf : option text -> bool -> text -> text)
+  (xs : list xdecl) (e : renv) : list decl :=
+  map (effective_decl nestf prefixf) (map (xdecl_resolve pc e) xs).
+
+Definition xhist_item (xs : list xdecl) (callf : mapper -> text -> option text -> tracedout)
+  (routesf : mapper -> bool -> list route) (hasf : mapper -> bool) (getf : mapper -> text -> option route)
+  (m : mapper) (s : hstep) : val :=
+  match s with
+  | HDispatch raw method => put_outcome (traverse_fix xs (fst (callf m method raw)))
+  | _ => hist_item callf routesf hasf getf m s
+  end.
+Definition xhist_spec_item (xs : list xdecl) (parse : text -> res pat) (sm : pat -> text -> option matchdict)
+  (ds : list decl) (s : hstep) : val :=
+  match s with
+  | HDispatch raw method => put_spec (spec_traverse_fix xs (spec_request_with parse sm ds method raw))
+  | _ => VL []
+  end.
+
+(* case   = [oracle; xdecls; [] | [PATH_INFO]; method; mode; history; request data]
+   answer as [run_C01_with] *)
+Definition run_C01_x
+  (pc : list (text * option text) -> list (text * text) -> bool)
+  (cf : (text -> res pat) -> mapper -> nat -> decl -> mapper * res unit)
+  (callf : (pat -> text -> option matchdict) -> mapper -> text -> option text -> tracedout)
+  (nestf : option text -> option text -> option text) (prefixf : option text -> bool -> text -> text)
+  (routesf : mapper -> bool -> list route) (hasf : mapper -> bool) (getf : mapper -> text -> option route)
+  (v : val) : val :=
+  ret_or_bad (
+    match v with
+    | VL [o; ds; raw; VT method; VI mode; h; env] =>
+        olet orc := get_oracle o in
+        olet xs := get_list_of get_xdecl ds in
+        olet raw := get_opt get_text raw in
+        olet steps := get_list_of get_xstep h in
+        olet e0 := get_renv env in
+        let ds := xbuild pc nestf prefixf xs e0 in
+        let ds_spec := xbuild param_call_model nest_prefix_model prefix_pattern_model xs e0 in
+        let '(m, sts) := connect_all_f (cf (parse_pattern_m orc)) empty_mapper 0 ds in
+        let router := negb (Z.eqb mode 0) in
+        let cfgerr := router && (negb (forallb is_ok sts) || has_dup (map d_name ds)) in
+        let model :=
+          if cfgerr
+          then VL [VL (map put_status sts); VL []; VL []; put_outcome OConfigError; VL []]
+          else
+            let '(out, tr) := callf (match_pat_m orc) m method raw in
+            VL [VL (map put_status sts); put_ids (routelist m); put_ids (statics m); put_outcome (traverse_fix xs out);
+                if router then VL [] else put_trace tr] in
+        let env_of := fun (eo : option renv) => match eo with Some e => e | None => e0 end in
+        let hist :=
+          if cfgerr then VL []
+          else if matcher_pure_ok
+               then VL (map (fun se =>
+                         let m_e := fst (connect_all_f (cf (parse_pattern_m orc)) empty_mapper 0
+                                           (xbuild pc nestf prefixf xs (env_of (snd se)))) in
+                         xhist_item xs (callf (match_pat_m orc)) routesf hasf getf m_e (fst se)) steps)
+               else VL [VT (T "drift")] in
+        Some (VL [model; put_spec (spec_traverse_fix xs (spec_request_m orc ds_spec method raw)); hist;
+                  VL (map (fun se => xhist_spec_item xs (spec_parse_m orc) (spec_match_m orc)
+                                       (xbuild param_call_model nest_prefix_model prefix_pattern_model xs (env_of (snd se)))
+                                       (fst se)) steps)])
+    | _ => None
+    end).
